@@ -96,14 +96,16 @@ Definition set_match (cs : str) (t : tk) : bool :=
   | _ => false
   end.
 
-(* The interpreter's word-level behaviour: one token per word; an optional word that does not
-   match is skipped; when the tokens are exhausted only !!x words still succeed. *)
+(* The word-level pattern language of the documentation comment of Token::Match: one token per
+   word; an optional word ("int|void|char|" = any of the strings or no token) that does not
+   match is skipped; when the tokens are exhausted only !!x and optional words still succeed.
+   (Since /repo 5f182d0 this is also what the interpreter does on "no token".) *)
 Fixpoint interp (varid : N) (p : pat) (toks : list tk) : bool :=
   match p with
   | [] => true
   | w :: ws =>
     match toks with
-    | [] => match w with WNot _ => interp varid ws [] | _ => false end
+    | [] => match w with WNot _ => interp varid ws [] | WAlts _ true => interp varid ws [] | _ => false end
     | t :: r =>
       match w with
       | WSet cs => set_match cs t && interp varid ws r
@@ -111,25 +113,6 @@ Fixpoint interp (varid : N) (p : pat) (toks : list tk) : bool :=
       | WAlts atoms opt =>
         if existsb (fun a => atom_match varid a t) atoms then interp varid ws r
         else if opt then interp varid ws toks else false
-      end
-    end
-  end.
-
-(* The documented language ("int|void|char|" = any of the strings or no token): as [interp]
-   but an optional word also succeeds when there is no token left. *)
-Fixpoint doc_lang (varid : N) (p : pat) (toks : list tk) : bool :=
-  match p with
-  | [] => true
-  | w :: ws =>
-    match toks with
-    | [] => match w with WNot _ => doc_lang varid ws [] | WAlts _ true => doc_lang varid ws [] | _ => false end
-    | t :: r =>
-      match w with
-      | WSet cs => set_match cs t && doc_lang varid ws r
-      | WNot l => negb (str_eqb (t_str t) l) && doc_lang varid ws r
-      | WAlts atoms opt =>
-        if existsb (fun a => atom_match varid a t) atoms then doc_lang varid ws r
-        else if opt then doc_lang varid ws toks else false
       end
     end
   end.
@@ -341,7 +324,11 @@ Fixpoint ml (fuel : nat) (varid : N) (p0 : str) (toks : list tk) : res :=
       let next (toks' : list tk) : res :=
           match drop_word p with [] => Rtrue | p' => ml f varid p' toks' end in
       match toks with
-      | [] => if is_not then ml f varid (drop_word p) [] else Rfalse
+      | [] => if is_not then ml f varid (drop_word p) []
+              else if negb (at_ 0 p =? 124) && negb ((at_ 0 p =? 91) && mem_N 93 (first_word p)) &&
+                      (last (first_word p) 0 =? 124)
+                   then ml f varid (drop_word p) []   (* "a|b|": no token is accepted *)
+                   else Rfalse
       | t :: r =>
         if (at_ 0 p =? 91) && mem_N 93 (first_word p) then
           match t_str t with
@@ -453,17 +440,6 @@ Definition iparse_word (w : str) : option word :=
 Definition iparse (s : str) : option pat := map_opt iparse_word (words s).
 
 (* ------------------------------------------------------------------ well-formedness *)
-Definition is_opt (w : word) : bool := match w with WAlts _ true => true | _ => false end.
-Definition is_not_w (w : word) : bool := match w with WNot _ => true | _ => false end.
-
-(* no suffix of the pattern consists only of optional / !! words and contains an optional one
-   (on such a tail the compiled code succeeds on "no token", the interpreter does not) *)
-Fixpoint no_opt_tail (p : pat) : bool :=
-  match p with
-  | [] => true
-  | w :: ws => no_opt_tail ws && negb (is_opt w && forallb (fun x => is_opt x || is_not_w x) ws)
-  end.
-
 Definition uses_varid (p : pat) : bool :=
   existsb (fun w => match w with WAlts atoms _ => existsb (fun a => match a with ACmd Cvarid => true | _ => false end) atoms | _ => false end) p.
 
@@ -499,7 +475,7 @@ Definition wf_word (w : word) : bool :=
     negb ((at_ 0 r =? 91) && has 93 r) && negb ((at_ 0 r =? 33) && (at_ 1 r =? 33))
   end.
 
-Definition wf_pat (p : pat) : bool := forallb wf_word p && no_opt_tail p.
+Definition wf_pat (p : pat) : bool := forallb wf_word p.
 
 Definition cmd_eqb (a b : cmd) : bool := str_eqb (cmd_text a) (cmd_text b).
 Definition atom_eqb (a b : atom) : bool :=
@@ -523,18 +499,11 @@ Definition word_eqb (a b : word) : bool :=
   end.
 
 (* a Token::Match / findmatch pattern literal of the source: the interpreter's and the
-   compiler's reading exist and coincide, the pattern is well formed (no optional tail) and
+   compiler's reading exist and coincide, the words are well formed and the pattern
    is written with single spaces (it is the canonical text of its reading) *)
 Definition wf_src (s : str) : bool :=
   match iparse s, cparse s with
   | Some p, Some q => wf_pat p && list_eqb word_eqb p q && str_eqb (render_pat p) s
-  | _, _ => false
-  end.
-
-(* in the documented grammar (the optional tail is allowed) *)
-Definition wf_doc (s : str) : bool :=
-  match iparse s, cparse s with
-  | Some p, Some q => forallb wf_word p && list_eqb word_eqb p q && str_eqb (render_pat p) s
   | _, _ => false
   end.
 
